@@ -207,6 +207,14 @@ pub struct Ctx {
     pub abs: Vec<Vec<f64>>,
     pub abs_period: usize,
     pub log: LogHash,
+    /// simulated monotonic clock (nanoseconds); read through `simctx::time::Instant`
+    pub clock_ns: u64,
+    /// how far the clock advances per scheduling decision and per clock read
+    pub clock_tick_ns: u64,
+    /// injected clock jumps: at the n-th clock read (0-based) the clock leaps forward by that much
+    pub clock_jumps: Vec<(u64, u64)>,
+    pub n_clock_reads: u64,
+    pub n_clock_jumps_fired: u64,
     /// logical position of each simulated task in the tree of parallel-iterator items:
     /// task id -> stack of path hashes (maintained by sim-rayon)
     pub paths: std::collections::HashMap<usize, Vec<u64>>,
@@ -246,6 +254,11 @@ impl Ctx {
             abs: Vec::new(),
             abs_period: 6,
             log: LogHash::default(),
+            clock_ns: 1_000_000_000,
+            clock_tick_ns: 1_000,
+            clock_jumps: Vec::new(),
+            n_clock_reads: 0,
+            n_clock_jumps_fired: 0,
             paths: std::collections::HashMap::new(),
             path_calls: std::collections::HashMap::new(),
             path_draws: std::collections::HashMap::new(),
@@ -372,4 +385,89 @@ pub fn active() -> bool {
 #[inline]
 pub fn log(tag: u8, x: u64, y: u64) {
     CTX.with(|c| c.borrow_mut().log.push(tag, x, y));
+}
+
+
+// ---------------------------------------------------------------------------------------------
+// Simulated clock
+// ---------------------------------------------------------------------------------------------
+
+/// Drop-in for the part of `std::time` a library uses for deadlines and measurements. The clock
+/// is simulated: it advances by a configured tick per scheduling decision and per read, and the
+/// fault injector can make it leap. Outside a simulated run it still works (it just ticks).
+pub mod time {
+    pub use std::time::Duration;
+    use std::ops::{Add, AddAssign, Sub, SubAssign};
+
+    #[derive(Clone, Copy, Debug, PartialEq, Eq, PartialOrd, Ord, Hash)]
+    pub struct Instant {
+        ns: u64,
+    }
+
+    impl Instant {
+        pub fn now() -> Instant {
+            let ns = super::with(|c| {
+                let n = c.n_clock_reads;
+                c.n_clock_reads += 1;
+                c.clock_ns = c.clock_ns.saturating_add(c.clock_tick_ns);
+                let mut fired = 0;
+                for (at, by) in c.clock_jumps.iter() {
+                    if *at == n {
+                        c.clock_ns = c.clock_ns.saturating_add(*by);
+                        fired += 1;
+                    }
+                }
+                c.n_clock_jumps_fired += fired;
+                c.clock_ns
+            });
+            super::log(super::EV_FAULT, 9, ns);
+            Instant { ns }
+        }
+        pub fn elapsed(&self) -> Duration {
+            Instant::now().saturating_duration_since(*self)
+        }
+        pub fn duration_since(&self, earlier: Instant) -> Duration {
+            self.saturating_duration_since(earlier)
+        }
+        pub fn saturating_duration_since(&self, earlier: Instant) -> Duration {
+            Duration::from_nanos(self.ns.saturating_sub(earlier.ns))
+        }
+        pub fn checked_duration_since(&self, earlier: Instant) -> Option<Duration> {
+            self.ns.checked_sub(earlier.ns).map(Duration::from_nanos)
+        }
+        pub fn checked_add(&self, d: Duration) -> Option<Instant> {
+            u64::try_from(d.as_nanos()).ok().and_then(|n| self.ns.checked_add(n)).map(|ns| Instant { ns })
+        }
+        pub fn checked_sub(&self, d: Duration) -> Option<Instant> {
+            u64::try_from(d.as_nanos()).ok().and_then(|n| self.ns.checked_sub(n)).map(|ns| Instant { ns })
+        }
+    }
+    impl Add<Duration> for Instant {
+        type Output = Instant;
+        fn add(self, d: Duration) -> Instant {
+            self.checked_add(d).expect("overflow when adding duration to instant")
+        }
+    }
+    impl Sub<Duration> for Instant {
+        type Output = Instant;
+        fn sub(self, d: Duration) -> Instant {
+            self.checked_sub(d).expect("overflow when subtracting duration from instant")
+        }
+    }
+    impl Sub<Instant> for Instant {
+        type Output = Duration;
+        fn sub(self, o: Instant) -> Duration {
+            self.saturating_duration_since(o)
+        }
+    }
+    impl AddAssign<Duration> for Instant {
+        fn add_assign(&mut self, d: Duration) {
+            *self = *self + d;
+        }
+    }
+    impl SubAssign<Duration> for Instant {
+        fn sub_assign(&mut self, d: Duration) {
+            *self = *self - d;
+        }
+    }
 }
